@@ -20,7 +20,7 @@ CHK_MODULE = "Check.Chk_C12"
 CASE_TYPE = "Chk_C12.case"
 CHECK_FN = "Chk_C12.check_case"
 HEADER = "From Ropt Require Import Model.Tracker."
-SHARD_SIZE = 400
+SHARD_SIZE = 220
 PARALLEL = True
 CASE_TIMEOUT = 120
 EXHAUSTIVE = {"quick": True, "thorough": True}
@@ -153,21 +153,32 @@ def _rand_plan(rng, basic):
 
 def gen_cases(tier, rng):
     maxlen = 2 if tier == "quick" else 3
+    light, heavy = [], []
     for L in range(1, maxlen + 1):
         for seq in itertools.product(range(len(LETTERS)), repeat=L):
             for tr in ("id", "neg"):
-                yield _ex_case(seq, tr)
+                light.append(_ex_case(seq, tr))
     if tier == "quick":
         for _ in range(1500):
-            yield _ex_case([rng.randrange(len(LETTERS)) for _ in range(3)], rng.choice(["id", "neg"]))
+            light.append(_ex_case([rng.randrange(len(LETTERS)) for _ in range(3)], rng.choice(["id", "neg"])))
     for _ in range(600 if tier == "quick" else 12000):
-        yield _rand_history(rng, 12)
+        heavy.append(_rand_history(rng, 12))
     for _ in range(200 if tier == "quick" else 3000):
-        yield _rand_history(rng, 40)
+        heavy.append(_rand_history(rng, 40))
     for _ in range(8 if tier == "quick" else 80):
-        yield _rand_plan(rng, basic=False)
+        heavy.append(_rand_plan(rng, basic=False))
     for _ in range(8 if tier == "quick" else 80):
-        yield _rand_plan(rng, basic=True)
+        heavy.append(_rand_plan(rng, basic=True))
+    # spread the long histories evenly over the shards (the Coq side is bound by the size of the literal)
+    rng.shuffle(heavy)
+    every = max(1, len(light) // max(1, len(heavy)))
+    k = 0
+    for n, c in enumerate(light):
+        yield c
+        if n % every == every - 1 and k < len(heavy):
+            yield heavy[k]
+            k += 1
+    yield from heavy[k:]
 
 
 # ---- driver: the real code ------------------------------------------------------------------------
@@ -448,38 +459,60 @@ def run_impl(case):
 
 
 # ---- Gallina printer ------------------------------------------------------------------------------
+def _q(x):
+    """Exact value of a finite float as n / 2^k (every float is dyadic): (qd n k)."""
+    from fractions import Fraction
+    x = float(x)
+    if math.isnan(x) or math.isinf(x):
+        raise ValueError(f"not finite: {x}")
+    f = Fraction(x)
+    k = f.denominator.bit_length() - 1
+    if f.denominator != 1 << k:
+        raise ValueError("not dyadic")
+    n = f.numerator
+    return f"(qd ({n}) {k})" if n < 0 else f"(qd {n} {k})"
+
+
+def _viol_term(v):
+    if v is None:
+        return "v0"
+    return "(vv " + " ".join("na" if a is None else f"(ar {cq.lst(_q(x) for x in a)})" for a in v) + ")"
+
+
 def _facet_term(f):
-    if f is None:
-        return "(fct false false None None)"
-    obj = "None" if f["obj"] is None else cq.oq(f["obj"])
-    if f["viol"] is None:
-        viol = "None"
-    else:
-        viol = "(Some " + cq.lst("None" if a is None else f"(Some {cq.qs(a)})" for a in f["viol"]) + ")"
-    return f"(fct {cq.b(f['isfun'])} {cq.b(f['hasf'])} {obj} {viol})"
+    if not f["isfun"]:
+        if f["hasf"] or f["viol"] is not None:
+            raise ValueError("gradient result with function fields")
+        return "gg"
+    v = _viol_term(f["viol"])
+    if not f["hasf"]:
+        return f"(f0 {v})"
+    if math.isnan(f["obj"]):
+        return f"(fn {v})"
+    return f"(ff {_q(f['obj'])} {v})"
 
 
 def _op_term(op):
     if op[0] == "put":
         if op[1] is None:
             return "(Put None)"
-        return f"(Put (Some ({cq.nat(op[1]['id'])}, {_facet_term(op[1]['u'])})))"
+        return f"(put {int(op[1]['id'])} {_facet_term(op[1]['u'])})"
     ev = op[1]
-    items = cq.lst(f"(itm {cq.nat(it['id'])} {_facet_term(it['u'])} {_facet_term(it['t'] if it['t'] is not None else it['u'])})"
+    items = cq.lst(f"(itm {int(it['id'])} {_facet_term(it['u'])} {_facet_term(it['t'] if it['t'] is not None else it['u'])})"
                    for it in ev["items"])
-    return f"(evt {cq.z(ev['tval'])} {cq.nat(ev['src'])} {cq.b(ev['has_results'])} {cq.b(ev['has_transformed'])} {items})"
+    return f"(evt {int(ev['tval'])} {int(ev['src'])} {cq.b(ev['has_results'])} {cq.b(ev['has_transformed'])} {items})"
 
 
 def _held_term(h):
     if h == "unobserved":
-        return "None"
+        return "hu"
     if h is None:
-        return "(Some None)"
-    return f"(Some (Some {cq.nat(h)}))"
+        return "hn"
+    return f"(hs {int(h)})"
 
 
 def coq_case(case, obs):
-    handlers = cq.lst(f"(cfgc {'Best' if w == 'best' else 'Last'} {cq.opt(tol, cq.q)} {cq.nats(ss)})"
+    handlers = cq.lst(f"(cfgc {'Best' if w == 'best' else 'Last'} {cq.opt(tol, _q)} {cq.nats(ss)})"
                       for w, tol, ss in case["handlers"])
     ops = cq.lst(_op_term(op) for op in obs["history"])
     held = cq.lst(cq.lst(_held_term(h) for h in hs) for hs in obs["held"])
